@@ -244,7 +244,8 @@ def impl_term(p, r, qp):
     ssq = fl(raw["ssq"][1][0])
     d = int(raw["defect"][1][0])
     qxx = ["(%d, %d, %s)" % (i, j, qlit(fl(raw["qxx %d %d" % (i + 1, j + 1)][1][0]))) for (i, j) in qp[0]]
-    qbb = ["(%d, %d, %s)" % (i, j, qlit(fl(raw["qbb %d %d" % (i + 1, j + 1)][1][0]))) for (i, j) in qp[1]]
+    # the solver classes used directly answer q_bb for the homogenised system; only Adj::q_bb is in original units
+    qbb = ["(%d, %d, %s)" % (i, j, qlit(fl(raw["qbb %d %d" % (i + 1, j + 1)][1][0]))) for (i, j) in qp[1]] if r["entry"] == "adj" else []
     return "IOk [%s] [%s] %s %d [%s] [%s]" % ("; ".join(qlit(v) for v in x), "; ".join(qlit(v) for v in rr), qlit(ssq), d,
                                               "; ".join(qxx), "; ".join(qbb))
 
@@ -304,3 +305,73 @@ def judge_in_coq(ctx, problems, results, qpairs, name, shard=40):
                 prs = [(int(a), int(b)) for a, b in re.findall(r"\((\d+),\s*(\d+)\)", m.group(2))]
                 bad.append((s + k, prs))
     return bad
+
+
+HARNESS_SRC = ["lib/gnu_gama/adj/adj.cpp", "lib/gnu_gama/adj/icgs.cpp", "lib/gnu_gama/adj/adj_input_data.cpp"]
+
+
+def build_harness(ctx, sanitize=None):
+    return vlib.compile_harness("harness/adj.cpp", sanitize=(not ctx.quick) if sanitize is None else sanitize, extra_src=HARNESS_SRC)
+
+
+def solver_level(ctx, name, ncase, subset_choices, oracle, want_q="none", defect_choices=None, maxm=10, maxn=6, entries=None,
+                 covkind=None):
+    """generate problems, run the harness, judge inside Coq, search with `oracle` on disagreement.
+    want_q: 'none' | 'all' (all pairs q_xx, sample of q_bb)"""
+    exe = build_harness(ctx)
+    problems, qpairs = [], []
+    for i in range(ncase):
+        p = gen_problem(ctx.rng, maxm=maxm, maxn=maxn, subset=ctx.rng.choice(subset_choices),
+                        defect=(ctx.rng.choice(defect_choices) if defect_choices else None), covkind=covkind)
+        problems.append(p)
+        if want_q == "all" and p["subset"] != "nonresolving":
+            qx = [(i, j) for i in range(p["n"]) for j in range(p["n"])]
+            qb = [(i, j) for i in range(p["m"]) for j in range(p["m"])]
+            ctx.rng.shuffle(qb)
+            qb = [(i, i) for i in range(p["m"])] + qb[:p["m"]]
+            qpairs.append((qx, qb))
+        else:
+            qpairs.append(([], []))
+        ctx.count((name, p["A"], p["b"], p["blocks"], p["S"]), nontrivial=(p["defect"] > 0 or any(w > 0 for _, w, _ in p["blocks"])))
+        ctx.hist("defect", p["defect"]); ctx.hist("n", p["n"]); ctx.hist("m", p["m"]); ctx.hist("subset", p["subset"])
+        for (_, w, _) in p["blocks"]:
+            ctx.hist("block_bandwidth", w)
+    entries = entries or [(e, a) for e in ("adj", "base") for a in ALGS]
+    results = run_problems(exe, problems, entries, qpairs)
+    bad = judge_in_coq(ctx, problems, results, qpairs, "cases_" + name)
+    ctx.sample({"problem": {k: problems[0][k] for k in ("m", "n", "A", "b", "blocks", "S", "defect", "subset")}})
+    ctx.extra["algorithms_x_entry_points"] = ["%s/%s" % e for e in entries]
+    ctx.extra["tolerance"] = "1e-8 * max(1, max|reference|), reference exact in Q"
+    reported = 0
+    for (pi, prs) in bad:
+        if pi is None:
+            ctx.violation({"kind": "C:QLsq", "broken": "coqc could not evaluate the cases file", "tail": prs}, "cases file failed", no_input=True)
+            continue
+        p = problems[pi]
+        for (k, code) in prs:
+            if reported >= 5:
+                break
+            reported += 1
+            if k == 0:
+                ctx.violation({"kind": "C:reference-certificate", "problem": p}, "reference model failed its own exact certificate (model defect)", no_input=True)
+                continue
+            r = results[pi][k - 1]
+            why = oracle(p, r, results[pi], qpairs[pi], code)
+            rep = {"kind": "K:adjust", "problem": p, "entry": r["entry"], "algorithm": r["alg"], "disagreement": CODES.get(code, code),
+                   "impl": {c: r["raw"][c] for c in ("x", "r", "ssq", "defect")} if "raw" in r else r.get("crash")}
+            if why:
+                rep["oracle"] = why
+                ctx.violation(rep, "%s/%s: %s (m=%d n=%d defect=%d subset=%s)" % (r["entry"], r["alg"], why, p["m"], p["n"], p["defect"], p["subset"]))
+            else:
+                rep["broken"] = "correspondence K:adjust (QLsq.adjust vs %s/%s) on %s" % (r["entry"], r["alg"], CODES.get(code, code))
+                ctx.violation(rep, "model and implementation disagree on %s, the property oracle found no failing input" % CODES.get(code, code), no_input=True)
+    return problems, results, qpairs
+
+
+def outcome(r):
+    if "crash" in r:
+        return "crash"
+    x = r["raw"]["x"]
+    if x[0] == "ok":
+        return "solved"
+    return "exc:" + " ".join(x[1][:2])
